@@ -33,7 +33,9 @@
       the great circle's bound (`apex_attains_bound`), therefore dominates every point of the
       circle (`arc_below_apex`); without an interior apex the end points dominate every arc point
       (`arc_le_endpoints`, `arc_ge_endpoints`); together: the exact-arithmetic transcription of
-      `extreme_gca_latitude` encloses EVERY point of the arc (`extreme_encloses_arc`), and the
+      `extreme_gca_latitude` encloses EVERY point of the arc (`extreme_encloses_arc`; an arc whose
+      end points straddle the equator is NOT monotone when its apex lies inside it —
+      `straddling_arc_not_monotone`, a rational witness), and the
       repaired normal-face loop fed with it encloses every point of every edge
       (`lat_encloses_every_arc_point`).
 
@@ -1779,5 +1781,23 @@ theorem winding_rule_right (f : ℝ → ℝ) :
   exact hex ⟨hnorth, by simpa using hs⟩
 
 end meanzReal
+
+/-! ### an arc that crosses the equator need not be monotone in latitude -/
+def strA : V3 ℚ := ⟨12/13, 4/13, -3/13⟩
+def strB : V3 ℚ := ⟨-2/7, 3/7, 6/7⟩
+/-- **straddling_arc_not_monotone** (rational witness): unit end points on opposite sides of the
+    equator, an arc longer than a quarter turn (`a·b < 0`) and shorter than half a turn; the latitude rises
+    when leaving EITHER end (`rise > 0` both ways: the apex is strictly inside the arc), `d_a_max ∈ (0,1)`,
+    and the arc point there is higher than the higher end point: `z² / ‖p‖² > z_b²`. -/
+theorem straddling_arc_not_monotone :
+    dot strA strA = 1 ∧ dot strB strB = 1 ∧ strA.z < 0 ∧ 0 < strB.z ∧
+    -1 < dot strA strB ∧ dot strA strB < 0 ∧
+    0 < strB.z - dot strA strB * strA.z ∧ 0 < strA.z - dot strA strB * strB.z ∧
+    0 < dAMax strA strB ∧ dAMax strA strB < 1 ∧
+    0 < (chord strA strB (dAMax strA strB)).z ∧
+    strB.z ^ 2 * dot (chord strA strB (dAMax strA strB)) (chord strA strB (dAMax strA strB))
+      < (chord strA strB (dAMax strA strB)).z ^ 2 := by
+  simp only [dot, dAMax, chord, vadd, smul, strA, strB]
+  norm_num
 
 end UxVerif.C13
